@@ -8,6 +8,9 @@ type ParseContext struct {
 	Opts          map[*container.Container][]string
 	ExcludedOpts  map[*container.Container]struct{}
 	RejectOptions bool
+	// Stalled holds the FSM states entered since the last time input was consumed,
+	// it is used to cut cycles of transitions which match without consuming anything
+	Stalled []interface{}
 }
 
 // NewParseContext create a new ParseContext
